@@ -183,6 +183,35 @@ theorem C18_spawn_one_exit (k : Kind) (st : St) (slot wstat : Nat) (out : Bytes)
   simp only [h]
   exact ⟨trivial, usedCount_set_none st.slots slot out h⟩
 
+/-- **A child's report carries only the child's own output**: the body written for an exited child
+is either one of the fixed texts of `report()` (extracted from the source), or a status letter
+followed by at most two contiguous pieces of the child's output, both free of NUL — never a byte
+from beyond the output (the unbounded `substdio_puts` of qmail-rspawn.c before commit 9e1dfcc
+violated exactly this).  In every case the body starts with K, Z or D and contains no NUL, so the
+report stream stays parseable. -/
+theorem C18_spawn_body (k : Kind) (wstat : Nat) (out : Bytes) :
+    textOK (reportBody k wstat out) = true ∧
+    (reportBody k wstat out ∈ fixedTexts ∨
+     ∃ l a b, isLetter l = true ∧ reportBody k wstat out = [l] ++ a ++ b ∧ a <:+: out ∧ b <:+: out ∧
+       (∀ c ∈ a, c ≠ 0) ∧ (∀ c ∈ b, c ≠ 0)) :=
+  ⟨reportBody_textOK k wstat out, reportBody_shape k wstat out⟩
+
+/-- **One report per command over a whole session**: for every script of events (bytes arriving on
+descriptor 0 in any chunking, children writing and exiting in any order, any file-system
+behaviour), when the program has run to its end the number of reports written equals the number
+of complete commands received, and no child is left.  `countCmds` counts with the bare framing
+automaton; `C18_spawn_grammar` says what it counts. -/
+theorem C18_spawn_one (k : Kind) (plan : List Nat) (script : List Op) :
+    nReports (run k plan script).2 = countCmds .delnum (inputOf script) ∧ usedCount (run k plan script).1 = 0 :=
+  run_balance k plan script
+
+/-- a delivery-number byte followed by three NUL-free, NUL-terminated fields is exactly one command,
+after which the reader is at the start of the next one; an incomplete tail counts for nothing -/
+theorem C18_spawn_grammar (d : Byte) (m sd rc : Bytes) (hm : ∀ c ∈ m, c ≠ 0) (hs : ∀ c ∈ sd, c ≠ 0)
+    (hr : ∀ c ∈ rc, c ≠ 0) (rest : Bytes) :
+    countCmds .delnum (d :: (m ++ 0 :: (sd ++ 0 :: (rc ++ 0 :: rest)))) = 1 + countCmds .delnum rest :=
+  count_command d m sd rc hm hs hr rest
+
 /-- a child writing output never changes which slots are in use, and output for a slot without a
 child is dropped -/
 theorem C18_spawn_out (k : Kind) (st : St) (slot : Nat) (bytes : Bytes) :
@@ -232,11 +261,23 @@ theorem C18_send_flip (env : Env) (st : St) (dl : Bytes) (sl : Slot)
   obtain ⟨_, _, h3, h4, h5, h6, h7⟩ := processLine_used env st dl sl h
   exact ⟨h3, h4, h5, h6, h7⟩
 
-/- Full statement not proved (kept as the oracle `sendOK` / `refMarks` run on the real code):
-   for every stream `s`, `marksOf (feed env st s).2` is a sub-multiset of the deliveries in flight in
-   `st` and equals the marks the reference reader `refMarks` expects.  `C18_send_flip` and
-   `C18_send_ignored` are its per-report step; the missing part is the multiset bookkeeping over
-   the whole stream. -/
+/-- **Every byte stream on a report descriptor** (`C18_send_robust` of the design): starting from
+an empty report line, for all bytes `s`, all worlds (slots, jobs) and all system-call behaviour,
+(1) the records marked are exactly those the stream asks for according to the independent
+reference reader `refMarks` — the same files in the same order, a mark being lost only when its
+`open_write` fails — (`sendStrict`, the oracle run on the real code); (2) they form a sub-multiset
+of the deliveries in flight at the start: a record is only ever marked for a delivery that was in
+flight, and at most once per such delivery — whatever out-of-range, unused, duplicated or mangled
+reports the stream contains; (3) every write into a recipient file is the single byte `D` of such
+a mark. -/
+theorem C18_send_robust (env : Env) (st : St) (s : Bytes) (h0 : st.drev = []) (h1 : st.dlen = 0) :
+    sendStrict env.chan st.jobs st.slots s (feed env st s).2 = true ∧
+    subMultiset (marksOf (feed env st s).2) (inflight env.chan st.jobs st.slots) = true ∧
+    writesOK (feed env st s).2 = true :=
+  ⟨(feed_stream env st s h0 h1).1, (feed_stream env st s h0 h1).2, feed_writesOK env st s⟩
+
+/- Still by oracle only: the bounce half of `sendOK` (bounce appends form a sub-multiset of the
+   in-flight messages' bounce files) over a whole stream; `C18_send_flip` is its per-report step. -/
 
 end send
 
@@ -265,6 +306,12 @@ example : (Nq.Spawn.cfeed {} [3, 49, 47, 50, 52, 0, 115, 0, 114, 64, 104, 0]).2 
 /-- the same with message id "/1" (absolute path): refused before any open -/
 example : ((Nq.Spawn.cfeed {} [3, 47, 49, 0, 115, 0, 114, 64, 104, 0]).2.any
     (fun e => match e with | .openRead _ => true | _ => false)) = false := by decide
+/-- rspawn: child output "rh" NUL "K" without a final NUL (the input that over-read before 9e1dfcc): report "Dh" -/
+example : Nq.Spawn.rreport 0 [114, 104, 0, 75] = [68, 104] := by decide
+/-- rspawn: "r" "ok" NUL "K" "accepted" NUL: report "K" "ok" "accepted" -/
+example : Nq.Spawn.rreport 0 [114, 111, 107, 0, 75, 97, 0] = [75, 111, 107, 97] := by decide
+/-- two commands, the second cut short: one complete command -/
+example : Nq.Lemmas.SpawnL.countCmds .delnum [3, 49, 0, 0, 64, 0, 4, 50, 0, 115] = 1 := by decide
 /-- okPath accepts "1/24", rejects "/1", "1/.", "" -/
 example : okPath [49, 47, 50, 52] = true ∧ okPath [47, 49] = false ∧ okPath [49, 47, 46] = false ∧ okPath [] = false := by decide
 
